@@ -23,7 +23,9 @@ EDom(curve, op, pr, bounds, x) ==
   LET c == CurveOf(curve) IN
   CASE op = "assert_equal" -> x.P[1] = x.P[2]
     [] op = "assert_not_equal" -> x.P[1] # x.P[2]
-    [] op = "from_coords" -> LET Q == Pt(x.C[1], x.C[2]) IN OnCurve(c, Q) /\ ~IsId(c, Q) /\ InSubgroup(c, Q)
+    \* (a pair of coordinates never names the point at infinity of a Weierstrass curve; the Edwards identity (0, 1) is an
+    \* ordinary point of the subgroup)
+    [] op = "from_coords" -> LET Q == Pt(x.C[1], x.C[2]) IN OnCurve(c, Q) /\ InSubgroup(c, Q)
     [] OTHER -> TRUE
 
 \* preconditions that are the caller's responsibility (not enforced by constraints): outside them no claim is made
